@@ -90,4 +90,10 @@ CLAIMED['C12'] = dict(
     technique='CrossHair-engine enumeration (z3-decided selectors) of importer histories and damage masks through the real parser + symbolic execution of Importer.run/ErrorToken on a symbolic malformed string (stubbed parser)',
     design='5 C12')
 
+CLAIMED['C17'] = dict(
+    text=BMC + 'C17: (c) get_metacomments is executed with a SYMBOLIC key string (z3 explores every prefix relation with the comment lines); (a) the token listing of every spine-operator layout inside the C02 bounds (plus 12 curated deep layouts) x 7 global-comment plans is compared with the order derived from the reference spine-path model; (b) category-filtered listings, unique listings, encodings and frequencies for None, every single category and every pair in three argument shapes on 7 documents (one with the same text under different categories) against the closure of the documented tree; (d) is_monophonic on documents toggling each conjunct.',
+    note=NOTE + 'Filters of more than two categories rely on C11.c (closure algebra for arbitrary sets).',
+    technique='CrossHair-engine symbolic execution of get_metacomments on a symbolic key + z3-enumerated layouts / filter selections through the real traversal code against spine-path and category-tree models',
+    design='5 C17')
+
 PENDING_REASON = 'check under construction in this session (to be claimed; see DESIGN.md section 5)'
